@@ -1001,7 +1001,7 @@ Proof.
         inversion Heq; subst; clear Heq. simpl. rewrite Hfrom', Z.eqb_refl.
         unfold claimable_from. fold user. destruct (view_progress f user) as [p|] eqn:Ep.
         -- destruct Hm as (Hle & Hmap & _). apply (in_map fst) in Hin. rewrite Hmap in Hin. apply zseq_in in Hin.
-           unfold first_claim_week, nr_claim_weeks in Hin. pose proof max_weeks_nonneg. simpl. lia.
+           unfold first_claim_week, nr_claim_weeks in Hin. pose proof max_weeks_nonneg. simpl in Hin. lia.
         -- subst det. destruct Hin.
       * simpl. destruct (view_progress f user) as [p|] eqn:Ep.
         -- destruct Hm as (_ & Hmap & _).
@@ -1050,4 +1050,304 @@ Proof.
       * specialize (IH1 _ _ Hin). specialize (Hmono u). lia.
     + apply NoDup_app_disjoint; [exact Hnd | exact IH2|].
       intros [u w] Hin Hin2. specialize (Hev _ _ Hin). specialize (IH1 _ _ Hin2). lia.
+Qed.
+
+(** ------------------------------------------------------------------ frozen weekly totals *)
+Lemma fc_claim_weeks_collect n : forall h s p h' s' p' det,
+  0 <= en_tok (pr_en p) -> NoDup (h_tokens h) ->
+  claim_weeks fhost fc_hook n h s p = Ok (h', s', p', det) ->
+  forall w, rget (w_rewards s) w = [] -> rget (w_rewards s') w <> [] ->
+    In w (zseq (pr_week p) n) /\
+    rget (w_rewards s') w = positive_part (map (fun t => (t, acc_get h w t)) (h_tokens h)) /\
+    (forall t, In t (h_tokens h) -> acc_get h' w t = 0).
+Proof.
+  induction n as [|n IH]; intros h s p h' s' p' det Ht Hnd; simpl claim_weeks.
+  - intros Heq; inversion Heq; subst. intros w He Hne. congruence.
+  - intros Heq. apply bind_ok in Heq. destruct Heq as ([[[h1 s1] p1] r0] & Hs & Heq).
+    apply bind_ok in Heq. destruct Heq as ([[[h2 s2] p2] rs] & Hr & Heq). inversion Heq; subst; clear Heq.
+    unfold claim_single in Hs. apply bind_ok in Hs. destruct Hs as ([[hx sx] rx] & Hh & Hs). inversion Hs; subst; clear Hs.
+    rewrite advance_week_adv in Hr by assumption.
+    assert (Ht1 : 0 <= en_tok (pr_en (adv p 1))) by (rewrite adv_tok; exact Ht).
+    destruct (default_hook_spec _ _ _ _ _ _ _ _ _ _ Hh) as (Hf & Hoth & Hr0 & Hfz & Hz & Hcol).
+    destruct (fc_hook_tokens _ _ _ _ _ _ _ _ Hh) as (Htok & Hacc).
+    destruct (fc_claim_weeks_shares _ _ _ _ _ _ _ _ Ht1 Hr) as (_ & Hs2 & _).
+    destruct (fc_claim_weeks_host _ _ _ _ _ _ _ _ Hr) as (Htok2 & Hacc2).
+    destruct (claim_weeks_frame fhost fc_hook fc_hook_frame _ _ _ _ _ _ _ _ Ht1 Hr) as (_ & _ & Hmap).
+    intros w He Hne. destruct (Z.eq_dec w (pr_week p)) as [->|Hw].
+    + assert (Hsame : rget (w_rewards s') (pr_week p) = rget (w_rewards s1) (pr_week p)).
+      { apply Hs2. rewrite adv_week, zseq_in. lia. }
+      split; [simpl; left; reflexivity|].
+      destruct ((energy_at p (pr_week p) =? 0) || (aget (w_energy s) (pr_week p) =? 0)) eqn:Ez.
+      * rewrite <- en_amount_energy_at in Ez. destruct (Hz Ez) as (-> & _). congruence.
+      * rewrite <- en_amount_energy_at in Ez. specialize (Hcol Ez He). unfold fc_collect in Hcol.
+        symmetry in Hcol. destruct (collect_tokens_spec _ _ _ _ _ Hnd Hcol) as (Hrr & Hzero & _ & _).
+        split; [rewrite Hsame; exact Hrr|].
+        intros t Hin. rewrite Hacc2; [apply Hzero; exact Hin|].
+        rewrite Hmap, adv_week, zseq_in. lia.
+    + assert (He1 : rget (w_rewards s1) w = []) by (rewrite Hoth by exact Hw; exact He).
+      rewrite <- Htok in Hnd.
+      destruct (IH _ _ _ _ _ _ _ Ht1 Hnd Hr w He1 Hne) as (Hin & Hrw & Hzero).
+      split; [simpl; right; rewrite adv_week in Hin; exact Hin|].
+      split.
+      * rewrite Hrw, Htok. f_equal. apply map_ext. intros t. f_equal. apply Hacc. exact Hw.
+      * intros t Hin'. apply Hzero. rewrite Htok. exact Hin'.
+Qed.
+
+Lemma perform_weekly_update_rewards s cw s1 :
+  perform_weekly_update s cw = Ok s1 ->
+  forall w, rget (w_rewards s1) w = rget (w_rewards s) w \/ rget (w_rewards s1) w = [].
+Proof.
+  unfold perform_weekly_update.
+  destruct (w_last s =? cw); [intros Heq; inversion Heq; subst; left; reflexivity|].
+  destruct (w_last s =? 0); [intros Heq; inversion Heq; subst; left; reflexivity|].
+  destruct (w_last s <=? cw); [|discriminate].
+  intros Heq. apply bind_ok in Heq. destruct Heq as ([[[[f0 bt] bs] tt'] te'] & _ & Heq).
+  destruct (MAXW + 1 <? cw); inversion Heq; subst; simpl; intros w; [|left; reflexivity].
+  destruct (Z.eq_dec (cw - MAXW - 1) w) as [->|Hne]; [right; apply rget_rset_same | left; apply rget_rset_other; exact Hne].
+Qed.
+
+Lemma update_user_energy_rewards s cw cur op s1 :
+  update_user_energy s cw cur op = Ok s1 ->
+  forall w, rget (w_rewards s1) w = rget (w_rewards s) w \/ rget (w_rewards s1) w = [].
+Proof.
+  assert (Hx : forall la prev, update_global_amounts s cw la prev cur = Ok s1 ->
+               forall w, rget (w_rewards s1) w = rget (w_rewards s) w \/ rget (w_rewards s1) w = []).
+  { intros la prev Hg. unfold update_global_amounts in Hg. apply bind_ok in Hg. destruct Hg as (s0 & Hp0 & Hg).
+    destruct (la <=? cw); [|discriminate].
+    apply bind_ok in Hg. destruct Hg as ([[sx hp] hc] & Hr & Hg).
+    apply bind_ok in Hg. destruct Hg as (tl' & _ & Hg). apply bind_ok in Hg. destruct Hg as (te & _ & Hg).
+    inversion Hg; subst; clear Hg. simpl.
+    destruct (reallocate_bucket_frame _ _ _ _ _ _ _ Hr) as (_ & _ & _ & _ & r5 & _). rewrite r5.
+    apply (perform_weekly_update_rewards _ _ _ Hp0). }
+  unfold update_user_energy. destruct op as [p|]; apply Hx.
+Qed.
+
+(** a successful claim at week [cw]: a week's total, once set, is not changed while the week is
+    claimable; a total that becomes set is a past week's accumulated deposits of the known tokens
+    (the positive ones, in token order), which are thereby consumed; accumulations of the current and
+    later weeks are not touched *)
+Lemma claim_rewards_frozen f dest user f' outs det :
+  FWf f -> claim_rewards f dest user = Ok (f', outs, det) ->
+  exists cw, current_week f = Ok cw /\
+    (forall w, view_total_rewards f w <> [] -> cw - MAXW <= w ->
+               view_total_rewards f' w = view_total_rewards f w) /\
+    (forall w, view_total_rewards f w = [] -> view_total_rewards f' w <> [] ->
+               cw - MAXW <= w < cw /\
+               view_total_rewards f' w =
+                 positive_part (map (fun t => (t, view_accumulated (accumulate_additional f cw) w t)) (h_tokens (fc_h f))) /\
+               (forall t, In t (h_tokens (fc_h f)) -> view_accumulated f' w t = 0)) /\
+    (forall w t, cw <= w -> view_accumulated f' w t = view_accumulated f w t).
+Proof.
+  intros (cw & Hcw & Hprog & Hfac & Hnd). unfold claim_rewards. rewrite Hcw. simpl bind.
+  intros Heq. apply bind_ok in Heq. destruct Heq as ([[h2 w2] det2] & Hcm & Heq).
+  apply bind_ok in Heq. destruct Heq as (bal' & Hpay & Heq). inversion Heq; subst; clear Heq.
+  exists cw. split; [reflexivity|].
+  pose proof (accumulate_additional_w f cw) as Haw. rewrite Haw, energy_entry_accumulate in Hcm.
+  assert (Hwfu : forall p, pfind (w_prog (fc_w f)) user = Some p -> 0 <= en_tok (pr_en p)).
+  { intros p Hp. apply pfind_in in Hp. rewrite Forall_forall in Hprog. apply (Hprog _ Hp). }
+  destruct (claim_multi_spec fhost fc_hook fc_hook_frame _ _ _ _ _ _ _ _ Hwfu Hcm)
+    as (s1 & s2 & Hu & Hsbr & Hs' & Hpa & Hm).
+  destruct (update_user_energy_frame _ _ _ _ _ Hu) as (_ & _ & _ & Hrw).
+  pose proof (update_user_energy_rewards _ _ _ _ _ Hu) as Hrw2.
+  destruct (accumulate_additional_env f cw) as (_ & _ & _ & _ & Htk).
+  pose proof max_weeks_nonneg as HM.
+  assert (Hacc0 : forall w t, cw <= w -> acc_get (fc_h (accumulate_additional f cw)) w t = acc_get (fc_h f) w t).
+  { intros w t Hw. unfold accumulate_additional. destruct (fc_lock_week f =? cw); [reflexivity|]. simpl.
+    apply acc_get_set_other. left. lia. }
+  unfold view_total_rewards, view_accumulated. simpl fc_w. simpl fc_h.
+  rewrite Hs', store_progress_rewards.
+  destruct (pfind (w_prog (fc_w f)) user) as [p|] eqn:Ep.
+  - destruct Hm as (Hle & Hmap & Hcw2).
+    assert (Htp : 0 <= en_tok (pr_en (adv p (first_claim_week p cw - pr_week p)))) by (rewrite adv_tok; apply Hwfu; reflexivity).
+    destruct (fc_claim_weeks_shares _ _ _ _ _ _ _ _ Htp Hcw2) as (_ & Hout & Hfz).
+    destruct (fc_claim_weeks_host _ _ _ _ _ _ _ _ Hcw2) as (_ & Hacc).
+    rewrite <- Htk in Hnd.
+    pose proof (fc_claim_weeks_collect _ _ _ _ _ _ _ _ Htp Hnd Hcw2) as Hcol.
+    split; [|split].
+    + intros w Hne Hw. rewrite Hfz; [apply Hrw; unfold cleared_week; lia|].
+      rewrite Hrw by (unfold cleared_week; lia). exact Hne.
+    + intros w He Hne.
+      assert (He1 : rget (w_rewards s1) w = []) by (destruct (Hrw2 w) as [Hy|Hy]; [rewrite Hy; exact He | exact Hy]).
+      destruct (Hcol w He1 Hne) as (Hin & Hrr & Hzero).
+      rewrite adv_week, zseq_in in Hin. unfold first_claim_week, nr_claim_weeks in Hin.
+      split; [lia|]. split; [rewrite Hrr, Htk; reflexivity|].
+      intros t Hin'. apply Hzero. rewrite Htk. exact Hin'.
+    + intros w t Hw. rewrite <- Hacc0 by exact Hw. apply Hacc.
+      rewrite Hmap, zseq_in. unfold first_claim_week, nr_claim_weeks. lia.
+  - destruct Hm as (-> & -> & ->). split; [|split].
+    + intros w Hne Hw. apply Hrw. unfold cleared_week. lia.
+    + intros w He Hne. exfalso. apply Hne. destruct (Hrw2 w) as [Hy|Hy]; [rewrite Hy; exact He | exact Hy].
+    + intros w t Hw. apply Hacc0. exact Hw.
+Qed.
+
+Lemma step_rewards_frozen f op f' outs det :
+  FWf f -> step f op = Ok (f', outs, det) ->
+  forall w, view_total_rewards f w <> [] -> cur_week f' - MAXW <= w ->
+            view_total_rewards f' w = view_total_rewards f w.
+Proof.
+  intros Hwf Hs. destruct (quiet op) eqn:Eq.
+  - destruct (quiet_frame _ _ _ _ _ Eq Hs) as (Hw & _). intros w _ _. unfold view_total_rewards. rewrite Hw. reflexivity.
+  - destruct op; try discriminate; simpl in Hs.
+    + unfold ep_advance in Hs. destruct (0 <=? n); [|discriminate]. inversion Hs; subst. reflexivity.
+    + destruct (ep_claim_inv _ _ _ _ _ _ _ Hs) as (_ & dest & Hc).
+      destruct (claim_rewards_frozen _ _ _ _ _ _ Hwf Hc) as (cw & Hcw & Hfz & _).
+      destruct (claim_rewards_env _ _ _ _ _ _ Hc) as (e1 & e2 & _).
+      intros w Hne Hw. apply Hfz; [exact Hne|]. rewrite (current_week_cur _ _ Hcw).
+      unfold cur_week in *. rewrite e1, e2 in Hw. exact Hw.
+    + unfold ep_update_energy in Hs. destruct Hwf as (cw & Hcw & Hp & _). rewrite Hcw in Hs. simpl bind in Hs.
+      apply bind_ok in Hs. destruct Hs as (w' & Hu & Hs). inversion Hs; subst; clear Hs.
+      unfold update_energy_for_user in Hu. destruct (match pfind _ u with Some p => pr_week p =? cw | None => true end); [|discriminate].
+      unfold update_energy_and_progress in Hu. apply bind_ok in Hu. destruct Hu as (s1 & Hu & Heq). inversion Heq; subst; clear Heq.
+      destruct (update_user_energy_frame _ _ _ _ _ Hu) as (_ & _ & _ & Hrw).
+      intros w Hne Hw. unfold view_total_rewards; simpl. rewrite store_progress_rewards. apply Hrw.
+      unfold cur_week in Hw; simpl in Hw. fold (cur_week f) in Hw. rewrite <- (current_week_cur _ _ Hcw) in Hw.
+      pose proof max_weeks_nonneg. unfold cleared_week. lia.
+Qed.
+
+(** only a claim fixes a week's total *)
+Lemma step_rewards_set_by_claim f op f' outs det :
+  FWf f -> step f op = Ok (f', outs, det) ->
+  forall w, view_total_rewards f w = [] -> view_total_rewards f' w <> [] -> exists c orig b, op = Claim c orig b.
+Proof.
+  intros Hwf Hs w He Hne. destruct (quiet op) eqn:Eq.
+  - destruct (quiet_frame _ _ _ _ _ Eq Hs) as (Hw & _). unfold view_total_rewards in *. rewrite Hw in Hne. contradiction.
+  - destruct op; try discriminate; simpl in Hs.
+    + unfold ep_advance in Hs. destruct (0 <=? n); [|discriminate]. inversion Hs; subst. contradiction.
+    + eauto.
+    + exfalso. unfold ep_update_energy in Hs. destruct Hwf as (cw & Hcw & Hp & _). rewrite Hcw in Hs. simpl bind in Hs.
+      apply bind_ok in Hs. destruct Hs as (w' & Hu & Hs). inversion Hs; subst; clear Hs.
+      unfold update_energy_for_user in Hu. destruct (match pfind _ u with Some p => pr_week p =? cw | None => true end); [|discriminate].
+      unfold update_energy_and_progress in Hu. apply bind_ok in Hu. destruct Hu as (s1 & Hu & Heq). inversion Heq; subst; clear Heq.
+      unfold view_total_rewards in *; simpl in Hne. rewrite store_progress_rewards in Hne.
+      destruct (update_user_energy_rewards _ _ _ _ _ Hu w) as [Hy|Hy]; [rewrite Hy in Hne; contradiction | contradiction].
+Qed.
+
+(** a deposit lands in the running week's accumulation of its token and nowhere else *)
+Lemma deposit_spec f c tok nonce amt f' outs det :
+  ep_deposit f c tok nonce amt = Ok (f', outs, det) ->
+  exists cw, current_week f = Ok cw /\ fc_w f' = fc_w f /\
+    (forall w t, view_accumulated f' w t =
+                 view_accumulated f w t + (if (w =? cw) && (t =? tok) then amt else 0)) /\
+    (forall t, aget (fc_bal f') t = aget (fc_bal f) t + (if (t =? tok) && (nonce =? 0) then amt else 0)) /\
+    mem c (fc_contracts f) = true /\ mem tok (h_tokens (fc_h f)) = true /\ 0 <= amt /\
+    (0 < nonce -> tok = LOCKED) /\ 0 <= nonce.
+Proof.
+  unfold ep_deposit. destruct ((0 <=? amt) && (0 <=? nonce)) eqn:Eg; [|discriminate].
+  apply andb_prop in Eg. destruct Eg as (Ea & En). apply Z.leb_le in Ea. apply Z.leb_le in En.
+  destruct (mem c (fc_contracts f)); [|discriminate]. destruct (mem tok (h_tokens (fc_h f))); [|discriminate].
+  intros Heq. apply bind_ok in Heq. destruct Heq as (cw & Hcw & Heq).
+  apply bind_ok in Heq. destruct Heq as (f1 & Hf1 & Heq). inversion Heq; subst; clear Heq.
+  exists cw. split; [exact Hcw|].
+  assert (Hacc : forall f0 w t, view_accumulated (with_h f0 (acc_set (fc_h f0) cw tok (acc_get (fc_h f0) cw tok + amt))) w t =
+                 view_accumulated f0 w t + (if (w =? cw) && (t =? tok) then amt else 0)).
+  { intros f0 w t. unfold view_accumulated; simpl.
+    destruct (w =? cw) eqn:E1; [destruct (t =? tok) eqn:E2|]; simpl.
+    - apply Z.eqb_eq in E1. apply Z.eqb_eq in E2. subst. apply acc_get_set_same.
+    - apply Z.eqb_eq in E1. apply Z.eqb_neq in E2. subst. rewrite acc_get_set_other by (right; congruence). lia.
+    - apply Z.eqb_neq in E1. rewrite acc_get_set_other by (left; congruence). lia. }
+  destruct (0 <? nonce) eqn:E0.
+  - apply Z.ltb_lt in E0. destruct (tok =? LOCKED) eqn:El; [|discriminate]. apply Z.eqb_eq in El. inversion Hf1; subst f1.
+    split; [reflexivity|]. split; [apply Hacc|]. split.
+    + intros t. simpl. destruct (nonce =? 0) eqn:En0; [apply Z.eqb_eq in En0; lia|]. rewrite andb_false_r. lia.
+    + repeat split; auto.
+  - apply Z.ltb_ge in E0. inversion Hf1; subst f1. split; [reflexivity|]. split; [intros w t; rewrite Hacc; reflexivity|]. split.
+    + intros t. simpl. assert (nonce = 0) by lia. subst nonce. rewrite Z.eqb_refl, andb_true_r.
+      destruct (t =? tok) eqn:Et.
+      * apply Z.eqb_eq in Et. subst. apply aget_aset_same.
+      * apply Z.eqb_neq in Et. rewrite aget_aset_other by congruence. lia.
+    + repeat split; auto. lia.
+Qed.
+
+(** ------------------------------------------------------------------ statements used by Props/C10.v *)
+Lemma claim_share_char f c orig boosted f' outs det :
+  FWf f -> ep_claim f c orig boosted = Ok (f', outs, det) ->
+  forall p w r, view_progress f (claim_user c orig) = Some p -> In (w, r) det ->
+    let e := energy_at p w in let E := view_total_energy f w in let tot := view_total_rewards f' w in
+    ((e = 0 \/ E = 0) -> r = []) /\
+    (0 < e -> 0 < E ->
+       (forall t x, In (t, x) r -> exists a, In (t, a) tot /\ floor_of x (a * e) E /\ 0 < x) /\
+       (forall t a, In (t, a) tot -> 0 < a * e / E -> In (t, a * e / E) r)).
+Proof.
+  intros Hwf Hs p w r Hp Hin. destruct (ep_claim_inv _ _ _ _ _ _ _ Hs) as (_ & dest & Hc).
+  destruct (claim_rewards_char _ _ _ _ _ _ Hwf Hc) as (cw & Hcw & Hm & _).
+  rewrite Hp in Hm. destruct Hm as (_ & _ & Hsh). specialize (Hsh _ _ Hin). simpl.
+  unfold week_share in Hsh. split.
+  - intros [He|HE]; rewrite Hsh.
+    + rewrite He. reflexivity.
+    + rewrite HE, Z.eqb_refl, orb_true_r. reflexivity.
+  - intros He HE.
+    assert (Hz : (energy_at p w =? 0) || (view_total_energy f w =? 0) = false).
+    { apply orb_false_iff. split; apply Z.eqb_neq; lia. }
+    rewrite Hz in Hsh. subst r. split.
+    + intros t x Hx. apply (shares_in _ _ _ _ _ HE Hx).
+    + intros t a Ha Hpos. apply shares_complete; assumption.
+Qed.
+
+Lemma claim_window_char f c orig boosted f' outs det :
+  FWf f -> ep_claim f c orig boosted = Ok (f', outs, det) ->
+  exists cw, current_week f = Ok cw /\
+    match view_progress f (claim_user c orig) with
+    | None => det = []
+    | Some p => pr_week p <= cw /\
+                map fst det = zseq (Z.max (pr_week p) (cw - MAXW)) (Z.to_nat (Z.min (cw - pr_week p) MAXW))
+    end /\
+    (forall w, In w (map fst det) -> cw - MAXW <= w < cw) /\
+    view_progress f' (claim_user c orig) =
+      (if 0 <? en_amount (energy_entry f (claim_user c orig))
+       then Some (mkProg (energy_entry f (claim_user c orig)) cw) else None) /\
+    (forall u, u <> claim_user c orig -> view_progress f' u = view_progress f u).
+Proof.
+  intros Hwf Hs. destruct (ep_claim_inv _ _ _ _ _ _ _ Hs) as (_ & dest & Hc).
+  destruct (claim_rewards_char _ _ _ _ _ _ Hwf Hc) as (cw & Hcw & Hm & Hpa & _).
+  exists cw. split; [exact Hcw|]. pose proof max_weeks_nonneg as HM.
+  split; [|split; [|split]].
+  - destruct (view_progress f (claim_user c orig)) as [p|]; [|exact Hm].
+    destruct Hm as (Hle & Hmap & _). split; [exact Hle | exact Hmap].
+  - intros w Hin. destruct (view_progress f (claim_user c orig)) as [p|].
+    + destruct Hm as (Hle & Hmap & _). rewrite Hmap in Hin. apply zseq_in in Hin.
+      unfold first_claim_week, nr_claim_weeks in Hin. lia.
+    + subst det. destruct Hin.
+  - unfold view_progress. rewrite Hpa, progress_after_find, Z.eqb_refl. reflexivity.
+  - intros u Hu. unfold view_progress. rewrite Hpa, progress_after_find.
+    destruct (claim_user c orig =? u) eqn:E; [apply Z.eqb_eq in E; congruence | reflexivity].
+Qed.
+
+Lemma ep_claim_frozen f c orig boosted f' outs det :
+  FWf f -> ep_claim f c orig boosted = Ok (f', outs, det) ->
+  exists cw, current_week f = Ok cw /\
+    (forall w, view_total_rewards f w <> [] -> cw - MAXW <= w ->
+               view_total_rewards f' w = view_total_rewards f w) /\
+    (forall w, view_total_rewards f w = [] -> view_total_rewards f' w <> [] ->
+               cw - MAXW <= w < cw /\
+               view_total_rewards f' w =
+                 positive_part (map (fun t => (t, view_accumulated (accumulate_additional f cw) w t)) (h_tokens (fc_h f))) /\
+               (forall t, In t (h_tokens (fc_h f)) -> view_accumulated f' w t = 0)) /\
+    (forall w t, cw <= w -> view_accumulated f' w t = view_accumulated f w t).
+Proof.
+  intros Hwf Hs. destruct (ep_claim_inv _ _ _ _ _ _ _ Hs) as (_ & dest & Hc).
+  apply (claim_rewards_frozen _ _ _ _ _ _ Hwf Hc).
+Qed.
+
+(** sum of a list *)
+Fixpoint zsum (l : list Z) : Z := match l with [] => 0 | x :: t => x + zsum t end.
+
+(** the arithmetic core of "never more than collected": floor shares of claimers whose energies add up to
+    at most the week's total energy add up to at most the week's total, per token *)
+Lemma shares_sum_le tot E t : 0 < E -> Forall (fun p => 0 <= snd p) tot ->
+  forall es, Forall (fun e => 0 <= e) es -> zsum es <= E ->
+  zsum (map (fun e => tok_sum (week_share tot e E) t) es) <= tok_sum tot t.
+Proof.
+  intros HE Htot es Hes Hsum.
+  assert (Hk : zsum (map (fun e => tok_sum (week_share tot e E) t) es) * E <= tok_sum tot t * zsum es /\
+               0 <= zsum (map (fun e => tok_sum (week_share tot e E) t) es)).
+  { clear Hsum. induction es as [|e tl IH]; simpl; [lia|].
+    inversion Hes as [|? ? He Htl]; subst. destruct (IH Htl) as [IH1 IH2].
+    unfold week_share at 1 3. destruct ((e =? 0) || (E =? 0)) eqn:Ez.
+    - simpl. apply orb_prop in Ez. destruct Ez as [Ez|Ez]; apply Z.eqb_eq in Ez; [|lia]. subst e. lia.
+    - destruct (tok_sum_shares_le tot e E t HE He Htot) as [H1 H2]. split; nia. }
+  destruct Hk as [Hk1 Hk2].
+  assert (Hnn : 0 <= tok_sum tot t).
+  { clear - Htot. induction tot as [|[t' a] tl IH]; simpl; [lia|]. inversion Htot; subst. simpl in *.
+    specialize (IH H2). destruct (t' =? t); lia. }
+  nia.
 Qed.
